@@ -1,8 +1,16 @@
 package main
 
 import (
+	"os"
+
 	"vharness/hx"
 	"vharness/tcpw"
 )
 
-func main() { hx.Main(tcpw.Gen) }
+func main() {
+	focus := ""
+	if len(os.Args) > 2 {
+		focus = os.Args[2]
+	}
+	hx.Main(func(r *hx.Run) { tcpw.Gen(r, focus) })
+}
